@@ -1,5 +1,6 @@
 import Driver.C01Mon
 import OidcModel.Generated.RPVerifier
+import OidcModel.Model.RPConstructGen
 open Kv Drv
 
 namespace Drv.C01
@@ -9,20 +10,132 @@ def run (v : Verifier) (t : Token) (withAT : Option String) (now : Int) : Go.R C
   | none => Gen.VerifyIDToken now t v
   | some atk => Gen.VerifyTokens now atk t v
 
+/-! ### relying-party mode: the verifier is rebuilt from the option lists with the REGENERATED constructors -/
+
+/-- `oidc.DefaultACRVerifier([]string{"gold", "silver"})`, regenerated -/
+def acrList : Option (String → Go.R Unit) := some (GenC01.DefaultACRVerifier 0 ["gold", "silver"])
+
+/-- one `rp.VerifierOption` (`vo.<k>.<j>`, value under `.v`), described -/
+def parseVOpt (l : Line) (p : String) : C01.VOptD :=
+  match str l p with
+  | "off" => .offset (int l (p ++ ".v"))
+  | "maxiat" => .iatMaxAge (int l (p ++ ".v"))
+  | "maxage" => .authMaxAge (int l (p ++ ".v"))
+  | "nonce" => .nonce (if str l (p ++ ".v") == "nil" then none else some fun _ => "n-123")
+  | "acr" => .acr (if str l (p ++ ".v") == "nil" then none else acrList)
+  | _ => .algs (list l (p ++ ".v"))
+
+def parseVOpts (l : Line) (k : Nat) : List C01.VOptD :=
+  let p := "vo." ++ toString k ++ "."
+  (List.range (nat l (p ++ "n"))).map fun j => parseVOpt l (p ++ toString j)
+
+/-- one `rp.Option` (`rp.<i>`), described -/
+def parseROpt (l : Line) (i : Nat) : C01.ROptD :=
+  let p := "rp." ++ toString i
+  match str l p with
+  | "vopts" => .verifierOpts (parseVOpts l (nat l (p ++ ".v")))
+  | "algsdisc" => .signingAlgsFromDiscovery
+  | "http" => .httpClient 1
+  | "discurl" => .customDiscoveryUrl (str l "disc.iss" ++ "/custom/discovery")
+  | "pkce" => .pkce (some 1)
+  | "cookie" => .cookieHandler (some 2)
+  | "authstyle" => .authStyle 1
+  | "errh" => .errorHandler (some 1)
+  | "unauth" => .unauthorizedHandler (some 1)
+  | "logger" => .logger none
+  | "jwterr" => .jwtProfile (.error "no key")
+  | _ => .jwtProfile (.ok 0)
+
+/-- the fake provider: its discovery document (at the default and at the custom URL) and its JWKS -/
+def world (l : Line) : RPCWorld :=
+  -- `disc.marked`: the provider answers the application's own http client (number 1) only
+  let admitted := fun (c : RPCHttpClient) => !(bool l "disc.marked") || c == 1
+  { discover := fun iss c url =>
+      if admitted c && (url == "" || url == str l "disc.iss" ++ "/custom/discovery") then
+        .ok { Issuer := iss, AuthorizationEndpoint := iss ++ "/authorize", TokenEndpoint := iss ++ "/token", JwksURI := str l "disc.jwks",
+              IDTokenSigningAlgValuesSupported := list l "disc.algs" }
+      else .error "ErrDiscoveryFailed",
+    jwks := fun c url => if admitted c && url == str l "disc.jwks" then parseKeySet l "ks." else { kind := .published, keys := [] } }
+
+/-- do two verifiers ask for the same thing? (functions compared on the values the stream uses) -/
+def sameConfig (a b : Verifier) : Bool :=
+  a.Issuer == b.Issuer && a.ClientID == b.ClientID && a.Offset == b.Offset && a.MaxAgeIAT == b.MaxAgeIAT && a.MaxAge == b.MaxAge &&
+  a.SupportedSignAlgs == b.SupportedSignAlgs && a.Nonce == b.Nonce && a.KeySet == b.KeySet &&
+  (match a.ACR, b.ACR with
+   | none, none => true
+   | some f, some g => ["gold", "silver", "bronze", ""].all fun x => (f x).toBool == (g x).toBool
+   | _, _ => false)
+
+/-- model answer in relying-party mode at instant `now`: (answer, the verifier the relying party hands out) -/
+def runRP (l : Line) (t : Token) (withAT : Option String) (now : Int) : Go.R Claims × Option Verifier :=
+  let w := world l
+  let opts := (List.range (nat l "rp.n")).map (parseROpt l)
+  let built :=
+    if str l "rp" == "oauth" then
+      GenC01.NewRelyingPartyOAuth now
+        { ClientID := str l "v.cid", ClientSecret := "secret", RedirectURL := "http://rp.local/callback", Scopes := ["openid"],
+          Endpoint := { AuthURL := str l "disc.iss" ++ "/authorize", TokenURL := str l "disc.iss" ++ "/token" } }
+        (opts.map (C01.ROptD.denote now))
+    else
+      GenC01.NewRelyingPartyOIDC now w (str l "v.iss") (str l "v.cid") "secret" "http://rp.local/callback" ["openid"]
+        (opts.map (C01.ROptD.denote now))
+  match built with
+  | .error _ => (.error "construct", none)
+  | .ok rp =>
+    let (vg, rp) := GenC01.relyingPartyIDTokenVerifier now rp
+    let v := (Go.getOpt vg).toVerifier w
+    let path := str l "rp.path"
+    if path == "vid" || path == "vtok" then (run v t withAT now, some v)
+    else
+      let resp : RPCOAuthToken := { AccessToken := withAT.getD "", idToken := { is_string := !(bool l "tr.noid"), tok := t } }
+      match GenC01.verifyTokenResponse now w resp rp with
+      | .error e => (.error e, some v)
+      | .ok toks =>
+        match toks.IDTokenClaims with
+        | some c => (.ok c, some v)
+        | none => (.error "noclaims", some v)
+
+/-- the verifier the application asked for according to the property's own definition (Spec/C01Config `rpConfigured`) -/
+def specVerifier (l : Line) : Option Verifier :=
+  let w := world l
+  let opts := (List.range (nat l "rp.n")).map (parseROpt l)
+  if str l "rp" == "oauth" then
+    -- NewRelyingPartyOAuth: no issuer, no discovery; the verifier options are those of the last WithVerifierOpts
+    some ((C01.configured "" (str l "v.cid") (.remote (C01.clientOf opts) "") (C01.lastOf C01.ROptD.vopts? opts [])).toVerifier w)
+  else
+  match w.discover (str l "v.iss") (C01.clientOf opts) (C01.lastOf C01.ROptD.url? opts "") with
+  | .ok d => some ((C01.rpConfigured (str l "v.iss") (str l "v.cid") opts d).toVerifier w)
+  | .error _ => none
+
+def showRP (r : Go.R Claims) : String :=
+  match r with
+  | .error "construct" => "err:construct"
+  | .error "noclaims" => "noclaims"
+  | r => showR r
+
 def step (l : Line) : String :=
   let v := parseVerifier l
   let t := parseToken l
   let withAT := opt l "at"
-  let m0 := run v t withAT (int l "now0")
-  let m1 := run v t withAT (int l "now1")
+  let isRP := str l "rp" == "oidc" || str l "rp" == "oauth"
+  let (m0, v0) := if isRP then runRP l t withAT (int l "now0") else (run v t withAT (int l "now0"), none)
+  let (m1, _) := if isRP then runRP l t withAT (int l "now1") else (run v t withAT (int l "now1"), none)
   let obs : Option Claims := if str l "obs" == "ok" then some (parseClaims l "o.") else none
   let obsS := obsString l
-  let stable := showR m0 == showR m1
-  let modelS := if stable then showR m0 else "unstable"
-  let agree := !stable || (modelS == obsS &&
+  let stable := showRP m0 == showRP m1
+  let modelS := if stable then showRP m0 else "unstable"
+  -- the verifier the regenerated constructors arrive at asks for what the application asked for (`v.*`)
+  -- ... and so does the property's definition of the configured verifier (`rpConfigured` on the same option lists)
+  let cfgOK := (match v0 with
+    | some vm => sameConfig vm v
+    | none => true) &&
+    (!isRP || (match specVerifier l with
+      | some vs => sameConfig vs v
+      | none => false))
+  let agree := cfgOK && (!stable || (modelS == obsS &&
     (match m0, obs with
      | .ok c, some o => c == o
-     | _, _ => true))
-  s!"case={str l "case"} model={modelS} observed={obsS} monitor={showMon (monitorLine l)} agree={if agree then 1 else 0}"
+     | _, _ => true)))
+  s!"case={str l "case"} model={if cfgOK then modelS else "config-differs"} observed={obsS} monitor={showMon (monitorLine l)} agree={if agree then 1 else 0}"
 
 end Drv.C01
